@@ -109,11 +109,14 @@ def oracle(alg_cls, T):
     return None
 
 
-def make_alg(framework, handled):
-    """Fresh algorithm class (fresh cache key) whose handlers return their own name."""
+def make_alg(framework, handled, post=False):
+    """Fresh algorithm class (fresh cache key) whose handlers return their own name (post=True: handlers take the transformed
+    operands and return (name, operands))."""
     ns = {}
     for name in handled:
-        if framework == "mf":
+        if post:
+            ns[name] = (lambda nm: (lambda self, o, *ops: (nm, tuple(ops))))(name)
+        elif framework == "mf":
             ns[name] = (lambda nm: (lambda self, o: nm))(name)
         else:
             ns[name] = (lambda nm: (lambda self, o: nm))(name)
@@ -122,6 +125,11 @@ def make_alg(framework, handled):
 
 
 def apply(framework, inst, obj, entry="call"):
+    if entry == "direct-postorder":
+        # the documented direct use of a MultiFunction with post-order handlers: transformed operands are passed along
+        def rec(o):
+            return inst(o, *[rec(op) for op in o.ufl_operands])
+        return rec(obj)
     if framework == "mf" and entry == "map_expr_dag":
         from ufl.corealg.map_dag import map_expr_dag
         return map_expr_dag(inst, obj)
@@ -161,7 +169,7 @@ def build(run):
                     res[fl] = reserve(fl)
                 handled_ = handled_ + tuple(hn for _, hn in res.values())
             reg = lambda fl: register_new_type(fl, res[fl][0] if dedicated else None)      # noqa: E731
-            cls = make_alg(framework, handled_)
+            cls = make_alg(framework, handled_, post=(entry == "direct-postorder"))
             insts = []
             news = []
             if cellname == "cache-miss":
@@ -223,7 +231,13 @@ def build(run):
                                         f"{type(o).__name__} failed with {type(ex).__name__}: {ex}",
                                         replay={"history": cellname, "framework": framework, "handlers": list(handled),
                                                 "type": type(o).__name__}, reproduced=True, backend="exec")
-                    exp = getattr(inst, want)(o) if want not in handled_ else want
+                    if entry == "direct-postorder":
+                        def exp_rec(x):
+                            wn = oracle(cls, type(x))
+                            return (wn, tuple(exp_rec(op) for op in x.ufl_operands))
+                        exp = exp_rec(o)
+                    else:
+                        exp = getattr(inst, want)(o) if want not in handled_ else want
                     if not (got is exp or got == exp):
                         return violated(f"{framework}/{cellname}: {type(o).__name__} dispatched to a handler returning {got!r}, "
                                         f"expected handler {want!r}",
@@ -242,6 +256,8 @@ def build(run):
                     # the same history, entered through the DAG mappers first (no direct call has refreshed the tables)
                     for entry in ("map_expr_dag", "map_expr_dags"):
                         run.add(f"{fw}/{cn}/handlers[{','.join(hs)}]/via-{entry}", cell(fw, cn, hs, entry), kind="values")
+                    if "ufl_type" not in hs:
+                        run.add(f"{fw}/{cn}/handlers[{','.join(hs)}]/direct call with transformed operands", cell(fw, cn, hs, "direct-postorder"), kind="values")
             for hs in HANDLER_SETS[:3]:
                 if fw == "tr" and "ufl_type" in hs:
                     continue
